@@ -22,6 +22,15 @@ fn main() {
         "globals" => run::globals_main(rest),
         "intr" => intr::main(rest),
         "host" => host::main(rest),
+        "ast" => {
+            // ad-hoc: print the fully expanded / optimised AST of the source text given as argument
+            let mut e = run::make_engine("full");
+            match e.emit_fully_expanded_ast_to_string(rest.get(0).map(|s| s.as_str()).unwrap_or(""), None) {
+                Ok(s) => println!("{}", s),
+                Err(err) => println!("ERROR {}", err),
+            }
+            0
+        }
         "dis" => {
             // ad-hoc: print the bytecode the compiler emits for the source text given as argument
             let mut e = run::make_engine("full");
